@@ -316,7 +316,10 @@ impl<'a> Live<'a> {
             if let (Some(a), Some(b)) = (&win_before, &window) {
                 // a panicking call must leave the exposed slice alone (C14); a lying source may
                 // only be noticed after the buffer was resized, never after the window changed
-                if a != b {
+                // (a request loop may have completed honest refills before the lie was met, so
+                // there the old window must be a prefix of the new one)
+                let looped = matches!(op, Op::Rq(_) | Op::Ra(_));
+                if (looped && !b.starts_with(a)) || (!looped && a != b) {
                     self.fail(i, "window changed by a panicking call".into());
                 }
             }
